@@ -12,6 +12,7 @@ import (
 	"strconv"
 	"strings"
 	"sync"
+	"sync/atomic"
 	"time"
 	"unsafe"
 
@@ -159,6 +160,16 @@ func (c *Client) GetAgentQueues() []*models.AgentQueue {
 }
 
 func (c *Client) GetVBucketSeqNos(bool) (*wrapper.ConcurrentSwissMap[uint16, uint64], error) {
+	if atomic.LoadInt32(&c.r.inHook) > 0 {
+		// asked by a scrape that a lifecycle callback issues: answered at once, not a step of the schedule
+		m := wrapper.CreateConcurrentSwissMap[uint16, uint64](16)
+		c.r.W.mu.Lock()
+		for i, h := range c.r.W.High {
+			m.Store(uint16(i), h)
+		}
+		c.r.W.mu.Unlock()
+		return m, nil
+	}
 	c.r.S.Emit(Ev{"ev": "SeqNosReq"})
 	v := c.r.S.At("GetVBucketSeqNos", "", nil)
 	hi := make([]any, c.r.W.NVB)
@@ -446,7 +457,12 @@ type Handler struct {
 	first sync.Once
 }
 
-func (h *Handler) cb(n string)           { h.r.S.Emit(Ev{"ev": "Callback", "name": n}) }
+func (h *Handler) cb(n string) {
+	h.r.S.Emit(Ev{"ev": "Callback", "name": n})
+	if h.r.Opt.HookScrapes {
+		h.r.S.Emit(Ev{"ev": "HookScrape", "name": n, "ok": h.r.HookScrape()})
+	}
+}
 func (h *Handler) BeforeRebalanceStart() { h.cb("BeforeRebalanceStart") }
 func (h *Handler) AfterRebalanceStart()  { h.cb("AfterRebalanceStart") }
 func (h *Handler) BeforeRebalanceEnd()   { h.cb("BeforeRebalanceEnd") }
@@ -472,6 +488,8 @@ type Options struct {
 	Membership     string // "static" | "dynamic" | "kubernetesHa"
 	Member, Total  int
 	CheckpointAuto bool
+	ReadOnly       bool // metadata.readOnly
+	HookScrapes    bool // the event handler scrapes the metrics endpoint from inside every lifecycle callback
 	SkipUntil      *time.Time
 	Version        *couchbase.Version
 }
@@ -492,6 +510,7 @@ type Rig struct {
 	Partial       bool // the last metadata.Load answered like a file backend
 	CollectionIDs map[uint32]string
 	Opt           Options
+	inHook        int32
 	RM            *couchbase.VerifRM // the replica table of rollback mitigation (real getMinSeqNo / IsOutdated / dispatch)
 }
 
@@ -563,6 +582,7 @@ func Boot(w *World, opt Options) *Rig {
 	if opt.Finite {
 		cfg.Dcp.Mode = config.DcpModeFinite
 	}
+	cfg.Metadata.ReadOnly = opt.ReadOnly
 	cfg.Dcp.Listener.SkipUntil = opt.SkipUntil
 	if opt.Membership == "" {
 		opt.Membership = membership.KubernetesHaMembershipType
@@ -605,6 +625,36 @@ var ErrInjected = errors.New("injected failure")
 
 // Scrape runs the real metric collector (metric.NewMetricCollector(...).Collect) and returns what it exposes as the
 // Scrape event of the specification.
+// HookScrape runs the real metric collector from inside a lifecycle callback (the seqno query it makes is answered at
+// once); false when it panics or does not return.
+func (r *Rig) HookScrape() bool {
+	st := r.Stream()
+	if st == nil {
+		return true
+	}
+	_, vd, _, _ := dcp.VerifParts(r.Dcp)
+	col := metric.NewMetricCollector(r.Client, st, vd)
+	done := make(chan bool, 1)
+	atomic.AddInt32(&r.inHook, 1)
+	defer atomic.AddInt32(&r.inHook, -1)
+	go func() {
+		defer func() {
+			if recover() != nil {
+				done <- false
+			}
+		}()
+		ch := make(chan prometheus.Metric, 4096)
+		col.Collect(ch)
+		done <- true
+	}()
+	select {
+	case ok := <-done:
+		return ok
+	case <-time.After(2 * time.Second):
+		return false
+	}
+}
+
 func (r *Rig) Scrape() Ev {
 	st := r.Stream()
 	_, vd, _, _ := dcp.VerifParts(r.Dcp)
